@@ -143,7 +143,7 @@ def run(chk, prop, profiles, n_quick, n_thorough, codes, replay=None, extra_hist
                                                       json.dumps(obs[i]["steps"][stp] if stp < len(obs[i]["steps"]) else None)[:1500]))
     if res["mviols"]:
         broken.append("the monitor rejects the model's own outputs (model and monitor disagree): %s" % res["mviols"][:5])
-    if broken and not chk.violations and not chk.known_hits:
+    if broken and not chk.violations:
         p = chk.replay_file("broken_histories.json", {"histories": [hists[i] for i in bad[:5]]})
         chk.fail("broken.txt", "\n\n".join(broken) + "\nreplay histories: " + p, no_input=True)
     chk.assumptions += [
